@@ -39,6 +39,7 @@ def cases(tier):
             out += G.structured_damage(c, r)
         out += G.random_strings(r, fmt, 30 if quick else 200)
     out += G.option_variants(r, 24 if quick else 120)
+    out += G.option_products(r)
     fx = [c for c in out if c["kind"] == "fixture"]
     seen = set()
     for c in fx:
